@@ -28,7 +28,9 @@ namespace engine
             Entry* probe(const Key& key, bool& found)
             {
                 Entry* entry = &data_[key & (Size - 1)];
-                found = (entry->key == key);
+                // epoch 0 marks empty entry (epoch_ starts from 1),
+                // without it key 0 would be found in every empty entry
+                found = (entry->epoch != 0 && entry->key == key);
                 return entry;
             }
 
@@ -41,7 +43,7 @@ namespace engine
             {
                 for (std::size_t i = 0; i < Size; ++i)
                 {
-                    data_[i].key = 0ULL;
+                    data_[i] = Entry();
                 }
             }
 
